@@ -33,6 +33,7 @@ import (
 	"strings"
 
 	"go.flow.arcalot.io/pluginsdk/schema"
+	"verif/harness/catalog"
 	cz "verif/harness/concretize"
 	"verif/harness/sup"
 )
@@ -162,7 +163,7 @@ func callTyped(t *cz.TypedOps, op string, arg any) (out callOut) {
 }
 
 // judge compares an observation with an expected outcome; returns "" or the divergence.
-func judge(o callOut, op string, exp outcome, e *cz.Embedding) (div string, detail map[string]any, inexpressible bool) {
+func judge(o callOut, op string, exp outcome, e *cz.Embedding, sch *cz.Schema) (div string, detail map[string]any, inexpressible bool) {
 	accepted := o.Err == nil
 	switch exp.OK {
 	case "yes":
@@ -178,7 +179,13 @@ func judge(o callOut, op string, exp outcome, e *cz.Embedding) (div string, deta
 	if !accepted || exp.V == nil || (op != "unser" && op != "ser") {
 		return "", nil, false
 	}
-	got, err := cz.FromGo(o.Val, e)
+	var got *cz.Value
+	var err error
+	if op == "unser" {
+		got, err = cz.FromGoS(o.Val, e, sch)
+	} else {
+		got, err = cz.FromGo(o.Val, e)
+	}
 	if err != nil {
 		if errors.Is(err, cz.ErrInexpressible) {
 			return "value", map[string]any{"result": fmt.Sprintf("%#v", o.Val), "expected": exp.V.Canon(), "note": err.Error()}, true
@@ -216,6 +223,24 @@ func schemaPoints(s *cz.Schema, f func(int64)) {
 	case "map":
 		schemaPoints(s.Keys, f)
 		schemaPoints(s.Vals, f)
+	case "object":
+		for _, p := range s.Props {
+			schemaPoints(p.Type, f)
+			if p.Default.Some {
+				valuePoints(p.Default.V, f)
+			}
+		}
+	case "oneof":
+		for _, m := range s.Members {
+			if s.Disc == "int" {
+				f(m.KeyInt)
+			}
+			schemaPoints(m.S, f)
+		}
+	case "scope":
+		for _, o := range s.Objects {
+			schemaPoints(o, f)
+		}
 	}
 }
 
@@ -240,6 +265,12 @@ func valuePoints(v *cz.Value, f func(int64)) {
 			valuePoints(p[0], f)
 			valuePoints(p[1], f)
 		}
+	case "struct":
+		for _, sf := range v.Fields {
+			if sf.Val.Some {
+				valuePoints(sf.Val.V, f)
+			}
+		}
 	}
 }
 
@@ -251,6 +282,24 @@ func hasFloatKind(s *cz.Schema) bool {
 		return hasFloatKind(s.Items)
 	case "map":
 		return hasFloatKind(s.Keys) || hasFloatKind(s.Vals)
+	case "object":
+		for _, p := range s.Props {
+			if hasFloatKind(p.Type) {
+				return true
+			}
+		}
+	case "oneof":
+		for _, m := range s.Members {
+			if hasFloatKind(m.S) {
+				return true
+			}
+		}
+	case "scope":
+		for _, o := range s.Objects {
+			if hasFloatKind(o) {
+				return true
+			}
+		}
 	}
 	return false
 }
@@ -331,6 +380,19 @@ func locate(c *vecCase, b *cz.Built, e *cz.Embedding, div string) (kind, class s
 			for _, p := range a.Pairs {
 				kids = append(kids, child{s.Keys, p[0]}, child{s.Vals, p[1]})
 			}
+		case s.Kind == "object" && a.K == "map":
+			// key node (no schema of its own), value node
+			for _, p := range a.Pairs {
+				var ps *cz.Schema
+				if p[0].K == "str" && p[0].Rep == "string" {
+					for _, pr := range s.Props {
+						if pr.Name == p[0].S && !pr.Disabled {
+							ps = pr.Type
+						}
+					}
+				}
+				kids = append(kids, child{nil, p[0]}, child{ps, p[1]})
+			}
 		default:
 			return kind, class
 		}
@@ -341,7 +403,7 @@ func locate(c *vecCase, b *cz.Built, e *cz.Embedding, div string) (kind, class s
 			if i < len(sub) {
 				exp, below = sub[i].OK, sub[i].Kids
 			}
-			if div != "panic" && exp == "" {
+			if ch.s == nil || ch.s.Kind == "ref" || (div != "panic" && exp == "") {
 				continue
 			}
 			cb, err := cz.Build(ch.s, e)
@@ -379,6 +441,115 @@ func locate(c *vecCase, b *cz.Built, e *cz.Embedding, div string) (kind, class s
 		}
 	}
 	return kind, class
+}
+
+// valueFault names the schema kind at the position where an accepted result first differs from
+// the declared one (both abstract).
+func valueFault(s *cz.Schema, exp, got *cz.Value, objs map[string]*cz.Schema) string {
+	if s == nil || exp == nil || got == nil {
+		return ""
+	}
+	switch s.Kind {
+	case "scope":
+		t := map[string]*cz.Schema{}
+		for _, o := range s.Objects {
+			t[o.ID] = o
+		}
+		if k := valueFault(t[s.Root], exp, got, t); k != "" {
+			return k
+		}
+		return "scope"
+	case "ref":
+		if o, ok := objs[s.ID]; ok {
+			return valueFault(o, exp, got, objs)
+		}
+		return "ref"
+	case "list":
+		if exp.K == "list" && got.K == "list" && len(exp.List) == len(got.List) {
+			for i := range exp.List {
+				if exp.List[i].Canon() != got.List[i].Canon() {
+					if k := valueFault(s.Items, exp.List[i], got.List[i], objs); k != "" {
+						return k
+					}
+				}
+			}
+		}
+	case "map":
+		if exp.K == "map" && got.K == "map" {
+			for _, p := range exp.Pairs {
+				for _, q := range got.Pairs {
+					if p[0].Canon() == q[0].Canon() && p[1].Canon() != q[1].Canon() {
+						if k := valueFault(s.Vals, p[1], q[1], objs); k != "" {
+							return k
+						}
+					}
+				}
+			}
+		}
+	case "object":
+		find := func(v *cz.Value, name string) *cz.Value {
+			switch v.K {
+			case "map":
+				for _, p := range v.Pairs {
+					if p[0].K == "str" && p[0].S == name {
+						return p[1]
+					}
+				}
+			case "struct":
+				for _, f := range v.Fields {
+					if f.Name == name && f.Val.Some {
+						return f.Val.V
+					}
+				}
+			}
+			return nil
+		}
+		for _, p := range s.Props {
+			a, b := find(exp, p.Name), find(got, p.Name)
+			if a != nil && b != nil && a.Canon() != b.Canon() {
+				// a differing scalar property is this object's business (defaults, presence)
+				if k := valueFault(p.Type, a, b, objs); k != "" && !isScalarKind(k) {
+					return k
+				}
+			}
+		}
+	case "oneof":
+		if exp.K == "map" && got.K == "map" {
+			strip := func(v *cz.Value) (*cz.Value, *cz.Value) {
+				out := &cz.Value{K: "map", Rep: v.Rep, Pairs: [][2]*cz.Value{}}
+				var d *cz.Value
+				for _, p := range v.Pairs {
+					if p[0].K == "str" && p[0].S == s.Field {
+						d = p[1]
+					} else {
+						out.Pairs = append(out.Pairs, p)
+					}
+				}
+				return out, d
+			}
+			eb, ed := strip(exp)
+			gb, _ := strip(got)
+			if eb.Canon() == gb.Canon() {
+				return "oneof"
+			}
+			for _, m := range s.Members {
+				if ed != nil && ((s.Disc == "int" && ed.K == "int" && ed.N == m.KeyInt) || (s.Disc != "int" && ed.K == "str" && ed.S == m.KeyStr)) {
+					if k := valueFault(m.S, exp, got, objs); k != "" {
+						return k
+					}
+				}
+			}
+		}
+	}
+	return s.Kind
+}
+
+func isScalarKind(k string) bool {
+	switch k {
+	case "int", "float", "string", "bool", "pattern", "enum_int", "enum_string", "any":
+		return true
+	}
+	return false
 }
 
 func runVector(c *vecCase) *resT {
@@ -443,7 +614,7 @@ func runVector(c *vecCase) *resT {
 				r.miss(sig, det)
 				continue
 			}
-			div, d, inexp := judge(o, c.Op, c.Exp, e)
+			div, d, inexp := judge(o, c.Op, c.Exp, e, c.S)
 			if inexp {
 				r.Inexpressible++
 			}
@@ -457,11 +628,18 @@ func runVector(c *vecCase) *resT {
 				for k, v := range d {
 					det[k] = v
 				}
+				if div == "value" && c.Op == "unser" && c.Exp.V != nil && o.Err == nil {
+					if got, err := cz.FromGoS(o.Val, e, c.S); err == nil {
+						if k := valueFault(c.S, c.Exp.V, got, nil); k != "" {
+							sig["kind_at_fault"] = k
+						}
+					}
+				}
 				r.miss(sig, det)
 				continue
 			}
 			// agreement with the statement; model detail beyond it is drift
-			if mdiv, md, _ := judge(o, c.Op, c.Mod, e); mdiv != "" {
+			if mdiv, md, _ := judge(o, c.Op, c.Mod, e, c.S); mdiv != "" {
 				sig, det := base(mdiv)
 				sig["drift"] = true
 				for k, v := range md {
@@ -485,6 +663,10 @@ type bindCase struct {
 	IMax   int64                `json:"imax"`
 	IMin   int64                `json:"imin"`
 	SymLen int64                `json:"symlen"`
+	Layouts map[string]struct {
+		Recv   string          `json:"recv"`
+		Fields []catalog.Field `json:"fields"`
+	} `json:"layouts"`
 	Cases  []cz.TransportCase   `json:"cases"`
 }
 
@@ -494,6 +676,24 @@ func checkStrings(b *bindCase) string {
 	}
 	if err := cz.CheckSecUnits(); err != nil {
 		return err.Error()
+	}
+	// struct layouts of SchemaAST.tla against the real struct types of harness/catalog
+	if len(b.Layouts) != len(catalog.Layouts) {
+		return fmt.Sprintf("SchemaAST.tla has %d layouts, harness/catalog %d", len(b.Layouts), len(catalog.Layouts))
+	}
+	for _, l := range catalog.Layouts {
+		tl, ok := b.Layouts[l.ID]
+		if !ok {
+			return "SchemaAST.tla lacks the layout " + l.ID
+		}
+		if (tl.Recv == "pointer") != l.Pointer {
+			return "layout " + l.ID + ": receiver kind differs"
+		}
+		wb, _ := json.Marshal(l.Fields)
+		gb, _ := json.Marshal(tl.Fields)
+		if string(wb) != string(gb) {
+			return fmt.Sprintf("layout %s: SchemaAST.tla says %s, the struct type %s", l.ID, gb, wb)
+		}
 	}
 	if err := cz.CheckSymbolic(); err != nil {
 		return err.Error()
